@@ -12,9 +12,11 @@ known finding : F7 - `continue` inside `while` skips the loop test (pinned by th
                 variant with that one defect.
 correspondence: the Coq parser + interpreter model against the implementation on the same texts.  For generated trees of the proved
                 fragment (tag core), generated single `for` loops over a fragment body with break / continue (tag forcore,
-                Proofs/C01for.v) and generated NESTED for loops with statements around them (tag fornest, Proofs/C01forN.v) the check
-                decides inside Coq (a) parse_script(printed text) = compile / compile_for_real (tree) and
-                (b) the structured interpreter (sexec / fexec / gexec, proved sound for SExec / FExec / GExec) = the implementation's result, log, globals.
+                Proofs/C01for.v), generated NESTED for loops with statements around them (tag fornest, Proofs/C01forN.v) and generated
+                programs of the UNIFIED block language - if / elif / else, while and for nested in each other in any order (tag ucore,
+                Proofs/C01u.v) - the check decides inside Coq (a) parse_script(printed text) = compile / compile_for_real / compile_u /
+                ucompile_real (tree) and (b) the structured interpreter (sexec / fexec / gexec / uexec, proved sound for SExec / FExec /
+                GExec / UExec) = the implementation's result, log, globals.
 """
 from . import core, interp, refinterp, scriptgen
 
@@ -248,6 +250,95 @@ def for_nest_program(r, depth=0, counter=[0]):
     return out
 
 
+def uni_program(r, depth=0, loop=None, scope=(), counter=None):
+    """a random nested program of the UNIFIED block language (Proofs/C01u.v unistmt): assignment, log, return, break, continue,
+    if / elif / else chains, while and for nested in each other in any order to depth 4 (a for inside an if branch inside a while
+    body inside a for ...).  `loop` = kind of the innermost enclosing loop: `break` in any loop, `continue` only when the innermost
+    loop is a for (known finding F7 excludes continue-in-while from the proved statement); loop values are arrays; the loop
+    variables are not assigned by the body.  counter = [fresh-name counter, remaining statement budget] (the parser model's time
+    grows faster than linearly in the text length: programs stay below about 60 lines)"""
+    counter = [0, r.randint(10, 26)] if counter is None else counter
+    g = scriptgen.Gen(r, [], 3)
+    names = scriptgen.VARS + scriptgen.GLOBALS + list(scope)
+    out = []
+    for _ in range(r.randint(1, 3) if depth else r.randint(2, 4)):
+        c = r.random()
+        counter[1] -= 1
+        if depth >= 4 or counter[1] <= 0 or c < 0.25:
+            c2 = r.random()
+            if c2 < 0.30:
+                out.append(['assign', r.choice(scriptgen.VARS), g.expr(2, names)])
+            elif c2 < 0.72:
+                counter[0] += 1
+                out.append(['expr', f"systemLog('U{counter[0]} ' + {g.expr(1, names)})"])
+            elif c2 < 0.82 and loop:
+                out.append(['if', [[g.expr(1, names), [['break']]]], None])
+            elif c2 < 0.92 and loop == 'for':
+                out.append(['if', [[g.expr(1, names), [['continue']]]], None])
+            elif c2 < 0.95 and depth:
+                out.append(['return', g.expr(1, names) if r.random() < 0.8 else None])
+            else:
+                out.append(['expr', f'({g.expr(2, names)})'])
+        elif c < 0.50:
+            nb = r.choice([1, 1, 2, 3])
+            branches = [[g.expr(2, names), uni_program(r, depth + 1, loop, scope, counter) if r.random() > 0.1 else []] for _ in range(nb)]
+            els = (uni_program(r, depth + 1, loop, scope, counter) if r.random() > 0.1 else []) if r.random() < 0.5 else None
+            out.append(['if', branches, els])
+        elif c < 0.72:
+            counter[0] += 1
+            cv = f'w{counter[0]}'
+            out.append(['assign', cv, '0'])
+            out.append(['while', f'{cv} < {r.randint(1, 3)}' + (f' && {g.expr(1, names)}' if r.random() < 0.25 else ''),
+                        [['assign', cv, f'{cv} + 1']] + uni_program(r, depth + 1, 'while', scope, counter)])
+        else:
+            counter[0] += 1
+            k = counter[0]
+            fv = f'fv{k}'
+            fi = f'fi{k}' if r.random() < 0.5 else None
+            values = r.choice(['arr', 'arr2', f'arrayNew({", ".join(g.expr(0, names) for _ in range(r.randint(0, 3)))})'])
+            body = uni_program(r, depth + 1, 'for', tuple(scope) + (fv,) + ((fi,) if fi else ()), counter)
+            out.append(['for', fv, fi, values, body])
+    # a bare break / continue as the last statement of a block (the code after a taken jump is dead, the lowering still emits it)
+    if loop and depth and r.random() < 0.08:
+        out.append([r.choice(['break', 'continue']) if loop == 'for' else 'break'])
+    return out
+
+
+def unistmt_coq(stmts, canon):
+    """a statement list of the unified block language as a Coq SOURCE tree of type unistmt (Proofs/C01u.v; for loops as NForS,
+    Model/RunC01u.v; sequences right-nested)"""
+    def one(s):
+        k = s[0]
+        if k == 'assign':
+            return f'(NAssign {core.cstr(s[1])} {scriptgen.expr_coq(canon[s[2]])})'
+        if k == 'expr':
+            return f'(NExpr {scriptgen.expr_coq(canon[s[1]])})'
+        if k == 'return':
+            return f'(NReturn {core.copt(scriptgen.expr_coq(canon[s[1]]) if s[1] is not None else None)})'
+        if k == 'break':
+            return 'NBreak'
+        if k == 'continue':
+            return 'NContinue'
+        if k == 'if':
+            def chain(branches, els):
+                (c, b), rest = branches[0], branches[1:]
+                tail = chain(rest, els) if rest else (f'(NElse {unistmt_coq(els, canon)})' if els is not None else 'NSkip')
+                return f'(NIf {scriptgen.expr_coq(canon[c])} {unistmt_coq(b, canon)} {tail})'
+            return chain(s[1], s[2])
+        if k == 'while':
+            return f'(NWhile {scriptgen.expr_coq(canon[s[1]])} {unistmt_coq(s[2], canon)})'
+        if k == 'for':
+            return (f'(NForS {core.cstr(s[1])} {core.cstr(s[2]) if s[2] is not None else "nil"} {scriptgen.expr_coq(canon[s[3]])} '
+                    f'{unistmt_coq(s[4], canon)})')
+        raise ValueError(k)
+    if not stmts:
+        return 'NSkip'
+    res = one(stmts[-1])
+    for s in reversed(stmts[:-1]):
+        res = f'(NSeq {one(s)} {res})'
+    return res
+
+
 def ustmt_coq(stmts, canon):
     """a statement list with for loops as a Coq term of type ustmt (Proofs/C01forReal.v): maximal runs of fragment statements become
     one US leaf, for loops become UFor, sequences are right-nested"""
@@ -340,8 +431,8 @@ def run(tier):
     chk.assumptions = ['programs do not use the reserved __bareScript prefix, do not bind arrayLength/arrayGet and do not assign a for-index inside its loop',
                        'the final value of a for-index variable after the loop is not pinned by the language description (reference follows the lowering: it is the length)',
                        'call depth bounded (CPython recursion limit out of scope)']
-    proof_ok = chk.prove('Props/C01.v', extra_targets=['Model/Run.vo', 'Model/RunC01.vo', 'Model/RunC01for.vo'])
-    model_ok = proof_ok or chk.model_ready(['Model/Run.vo', 'Model/RunC01.vo', 'Model/RunC01for.vo'])
+    proof_ok = chk.prove('Props/C01.v', extra_targets=['Model/Run.vo', 'Model/RunC01.vo', 'Model/RunC01for.vo', 'Model/RunC01u.vo'])
+    model_ok = proof_ok or chk.model_ready(['Model/Run.vo', 'Model/RunC01.vo', 'Model/RunC01for.vo', 'Model/RunC01u.vo'])
     r = core.rng('c01')
     vals = value_pool(r)
 
@@ -405,6 +496,10 @@ def run(tier):
         progs.append(('fornest', for_nest_program(r), {'g0': r.choice(vals), 'g1': r.choice(vals), 'g2': r.choice(vals),
                                                        'arr': r.choice(arrs), 'arr2': r.choice(arrs)}))
 
+    for _ in range(60 if tier == 'quick' else 1000):
+        progs.append(('ucore', uni_program(r), {'g0': r.choice(vals), 'g1': r.choice(vals), 'g2': r.choice(vals),
+                                                'arr': r.choice(arrs), 'arr2': r.choice(arrs[1:])}))
+
     texts = [scriptgen.program_text(t) for _, t, _ in progs]
     cases = [{'text': tx, 'globals': g, 'max': 3000, 'want_model': True} for tx, (_, _, g) in zip(texts, progs)]
     impl = core.run_impl('run_script', cases)
@@ -453,7 +548,7 @@ def run(tier):
                                              'globals': {k: repr(v)[:60] for k, v in exp['globals'].items()}},
                                 'got': {k: res.get(k) for k in ('res', 'rt', 'log', 'globals')}})
 
-    corr_n = declined = n_low = n_st = st_declined = n_for = n_nest = 0
+    corr_n = declined = n_low = n_st = st_declined = n_for = n_nest = n_uni = 0
     if model_ok:
         idx = [i for i in range(len(progs)) if 'model' in impl[i] and 'host' not in impl[i] and not impl[i].get('rt', '').startswith('Exceeded maximum')]
         budget = 250 if tier == 'quick' else 4000
@@ -468,7 +563,7 @@ def run(tier):
                 pass
         # the proved fragment: (a) parse_script (printed text) = compile (tree) in the parser model; (b) the structured interpreter
         # of Proofs/C01b.v (sound for SExec) run on the tree agrees with the implementation's run of the text
-        core_idx = [i for i, (tag, _, _) in enumerate(progs) if tag in ('core', 'forcore', 'fornest') and 'host' not in impl[i]
+        core_idx = [i for i, (tag, _, _) in enumerate(progs) if tag in ('core', 'forcore', 'fornest', 'ucore') and 'host' not in impl[i]
                     and not impl[i].get('rt', '').startswith('Exceeded maximum')]
         low_terms, low_used, st_terms, st_used = [], [], [], []
         for i in core_idx:
@@ -486,6 +581,10 @@ def run(tier):
                 # nested for loops (Proofs/C01forN.v): source tree as ustmt, names of the temporaries by annotate
                 term = ustmt_coq(progs[i][1], canon)
                 low_fn, st_fn = 'check_lowering_u', 'check_struct_u'
+            elif progs[i][0] == 'ucore':
+                # the unified block language (Proofs/C01u.v): source tree as unistmt, names of the temporaries by uname
+                term = unistmt_coq(progs[i][1], canon)
+                low_fn, st_fn = 'check_lowering_n', 'check_struct_n'
             else:
                 term = sstmt_coq(progs[i][1], canon)
                 low_fn, st_fn = 'check_lowering', 'check_struct'
@@ -500,7 +599,7 @@ def run(tier):
                 st_used.append(i)
             except (interp.Unencodable, ValueError):
                 pass
-        c01_imports = interp.IMPORTS + ' Proofs.C01 Model.RunC01 Model.RunC01for Proofs.C01forReal'
+        c01_imports = interp.IMPORTS + ' Proofs.C01 Model.RunC01 Model.RunC01for Proofs.C01forReal Proofs.C01u Proofs.C01uReal Model.RunC01u'
         bad_low, err_low = core.coq_bools('c01low', c01_imports, low_terms, shard=5)
         for k, log in err_low:
             chk.corr_fail.append({'class': 'case-file-did-not-evaluate', 'shard': k, 'log': log[-800:]})
@@ -516,6 +615,7 @@ def run(tier):
         n_low, n_st, st_declined = len(low_terms), len(st_terms), sum(1 for c in st_codes if c == 2)
         n_for = sum(1 for i in st_used if progs[i][0] == 'forcore')
         n_nest = sum(1 for i in st_used if progs[i][0] == 'fornest')
+        n_uni = sum(1 for i in st_used if progs[i][0] == 'ucore')
         codes, errors = core.coq_codes('c01', interp.IMPORTS, terms, shard=16)
         corr_n = len(used)
         for k, log in errors:
@@ -534,12 +634,14 @@ def run(tier):
                 'flags per loop level (depth 3 sampled 1:4 in quick), at global scope or inside a function; random: grammar-generated programs to nesting 5 with '
                 'up to 3 functions, function definitions moved inside global blocks in 40%; forcore: one for loop (with / without index variable, over an array '
                 'global or an arrayNew call) whose body is a fragment tree with break / continue of the for at top level and in if branches; fornest: sequences of fragment statements and for loops nested '
-                'to depth 3 (for-in-for), break / continue of the innermost for; nested-fn: function inside a global block with two nested loops and '
+                'to depth 3 (for-in-for), break / continue of the innermost for; ucore: random programs of the unified block language (if / elif / else, while, for nested in each '
+                'other in any order to depth 4, break in any loop, continue where the innermost loop is a for); nested-fn: function inside a global block with two nested loops and '
                 'break/continue; initial globals from a 16-value pool of all nine types; non-trivial = distinct program texts on which implementation = reference',
         'exhaustive': tier == 'thorough', 'exhaustive_part': 'nesting shapes to depth 3' + (' (depth 3 sampled in quick)' if tier == 'quick' else ''),
         'distribution': dist, 'reference_skipped': skipped, 'correspondence_cases': corr_n, 'model_declined': declined,
         'lowering_equalities_checked_in_coq': n_low, 'structured_interpreter_runs_in_coq': n_st, 'structured_interpreter_declined': st_declined,
         'for_layer_structured_runs_in_coq': n_for, 'nested_for_structured_runs_in_coq': n_nest,
+        'unified_structured_runs_in_coq': n_uni,
         'samples': [{'source': texts[i], 'impl': {k: impl[i].get(k) for k in ('res', 'rt', 'log')}} for i in (3, len(progs) // 2, len(progs) - 40) if i < len(progs)],
     }
     return chk.finish(TRUSTED)
